@@ -15,6 +15,7 @@ import (
 	"encoding/pem"
 	"fmt"
 	"github.com/WICG/webpackage/go/zz_verif/gen"
+	"io"
 	"net/url"
 	"os"
 	"os/exec"
@@ -48,6 +49,24 @@ var stale = bytes.Repeat([]byte("stale bytes of an earlier, longer output file "
 // preexisting makes the -o target of the next tool call an existing file that is longer than anything the tool will write.
 func preexisting(path string) { os.WriteFile(path, stale, 0o644) }
 
+// runBounded runs a tool under a generous wall-clock limit. A tool that is still running after five minutes (they take
+// milliseconds) is killed; that is reported as a failed invocation by the caller, never silently waited for.
+func runBounded(cmd *exec.Cmd) error {
+	if err := cmd.Start(); err != nil {
+		return err
+	}
+	done := make(chan error, 1)
+	go func() { done <- cmd.Wait() }()
+	select {
+	case err := <-done:
+		return err
+	case <-time.After(5 * time.Minute):
+		cmd.Process.Kill()
+		<-done
+		return fmt.Errorf("tool did not exit within 5 minutes and was killed")
+	}
+}
+
 // toolCwd is set (and reset) by a caller that wants the next tool() call to run in another working directory.
 var toolCwd string
 
@@ -59,7 +78,7 @@ func tool(name string, env []string, args ...string) toolResult {
 	cmd.Stdin = nil
 	var buf bytes.Buffer
 	cmd.Stdout, cmd.Stderr = &buf, &buf
-	err := cmd.Run()
+	err := runBounded(cmd)
 	rc := 0
 	if err != nil {
 		rc = 1
@@ -77,7 +96,7 @@ func toolStdout(name string, env []string, args ...string) (toolResult, []byte) 
 	cmd.Env = append(os.Environ(), env...)
 	var so, se bytes.Buffer
 	cmd.Stdout, cmd.Stderr = &so, &se
-	err := cmd.Run()
+	err := runBounded(cmd)
 	rc := 0
 	if err != nil {
 		rc = 1
@@ -467,7 +486,7 @@ func run20(r *mon.Run) {
 		// flags within their documented use: an extra response header on every exchange, a manifest URL (b1)
 		override := t%3 == 1
 		if override {
-			args = append(args, "-headerOverride", "X-Verif-Extra: on", "-headerOverride", "Cache-Control:max-age=60")
+			args = append(args, "-headerOverride", "X-Verif-Extra: on", "-headerOverride", "Cache-Control:max-age=60", "-headerOverride", "X-Tabbed: a;\tb")
 		}
 		manifest := ""
 		if ver == "b1" && t%2 == 0 {
@@ -506,7 +525,7 @@ func run20(r *mon.Run) {
 					bad = fmt.Sprintf("-manifestURL %s is not the manifest URL stored in the bundle", manifest)
 				}
 				for _, ex := range p.Exchanges {
-					if override && (ex.Headers["x-verif-extra"] != "on" || ex.Headers["cache-control"] != "max-age=60") {
+					if override && (ex.Headers["x-verif-extra"] != "on" || ex.Headers["cache-control"] != "max-age=60" || ex.Headers["x-tabbed"] != "a;\tb") {
 						bad = fmt.Sprintf("-headerOverride values are missing on %q (headers %v)", ex.URL, ex.Headers)
 						break
 					}
@@ -702,7 +721,7 @@ func run20(r *mon.Run) {
 			hv := map[string]string{}
 			addH := func(n, v string) { e.Response.Headers = append(e.Response.Headers, nvp{n, v}) }
 			addH(":status", "200")
-			ct := mon.Pick(g, []string{"text/html", "application/javascript", "image/png"})
+			ct := mon.Pick(g, []string{"text/html", "application/javascript", "image/png", "text/html;\tcharset=utf-8"})
 			addH("Content-Type", ct)
 			hv["content-type"] = ct
 			if g.Bool() {
@@ -1096,6 +1115,48 @@ func run20(r *mon.Run) {
 				violation(key+":audit", fmt.Sprintf("gen-signedexchange (%s): %s", ver, bad), det)
 			}
 			if explicitDate == 0 {
+				// the documented ways of handing the exchange over: -i with whatever happens to be on stdin (an idle pipe,
+				// a regular file as inside `while read ...; done < list`), and the exchange itself piped into stdin
+				fileBytes, _ := os.ReadFile(out)
+				for _, how := range []string{"-i+stdin=closed-pipe", "-i+stdin=regular-file", "stdin=pipe", "stdin=file-redirect"} {
+					if (s+len(how))%2 == 0 {
+						continue
+					}
+					dargs := []string{"-cert", certCBOR[m], "-verify"}
+					cmd := exec.Command(bins["dump-signedexchange"])
+					var closers []io.Closer
+					switch how {
+					case "-i+stdin=closed-pipe":
+						dargs = append([]string{"-i", out}, dargs...)
+						pr, pw, _ := os.Pipe()
+						pw.Close() // (an idle pipe that stays open would make a tool that wrongly reads stdin wait forever)
+						cmd.Stdin = pr
+						closers = append(closers, pr)
+					case "-i+stdin=regular-file":
+						dargs = append([]string{"-i", out}, dargs...)
+						f, _ := os.Open(cp) // the -content file: any regular file that is not an exchange
+						cmd.Stdin = f
+						closers = append(closers, f)
+					case "stdin=pipe":
+						cmd.Stdin = bytes.NewReader(fileBytes) // os/exec feeds it through a pipe
+					case "stdin=file-redirect":
+						f, _ := os.Open(out)
+						cmd.Stdin = f
+						closers = append(closers, f)
+					}
+					cmd.Args = append(cmd.Args, dargs...)
+					var ob bytes.Buffer
+					cmd.Stdout, cmd.Stderr = &ob, &ob
+					invocations++
+					err := runBounded(cmd)
+					for _, c := range closers {
+						c.Close()
+					}
+					if err != nil || !strings.Contains(ob.String(), "The exchange has a valid signature.") {
+						outcome = "sxg:DUMP-VERIFY-REJECTS"
+						violation(key+":dump-verify:"+how, fmt.Sprintf("dump-signedexchange -verify (%s) does not confirm gen-signedexchange's output (%s): err=%v %s", how, ver, err, tail(ob.String())), det)
+					}
+				}
 				d := tool("dump-signedexchange", nil, "-i", out, "-cert", certCBOR[m], "-verify")
 				if d.rc != 0 || !strings.Contains(d.out, "The exchange has a valid signature.") {
 					outcome = "sxg:DUMP-VERIFY-REJECTS"
